@@ -1,8 +1,10 @@
 mod builtins;
+mod freevars;
 mod gen_alias;
 mod gen_dict;
 mod gen_fault;
 mod gen_flow;
+mod gen_freeze;
 mod gen_stream;
 mod gen_typed;
 mod gen_common;
